@@ -13,6 +13,7 @@ the dictionary (the model replays it from the initial state) and the queries ask
     op     a,<key>,<text>,<freq>,<time|->   u,<key>,<text>,<freq>,<time>   r,<key>,<text>   f   o   c
     entry  <key>,<text>,<freq>,<time|->
     query  R (result of the last operation: ok/err)   L,<key>,<n|max>,<s|f>   E
+           P,<key>,<s|f> (`lookup_first_phrase`)   A,<key>,<s|f> (`lookup_all_phrases`) — provided trait methods
     key    syllable codes joined by '.', text x<hex of UTF-8>
     answer to L: phrases `text/freq/time` joined by ';' ('-' if none), to E: `key/text/freq/time`,
            stably sorted by key on both sides (the enumeration order across keys is not specified)
@@ -84,6 +85,8 @@ def answer (res : String) (lookup : Key → Nat → Strategy → List Phrase) (e
   match q.splitOn "," with
   | ["R"] => some res
   | ["L", k, n, st] => some (phrasesS (lookup (parseKey k) (parseN n) (parseStrat st)))
+  | ["P", k, st] => some (phrasesS (firstPhraseOf (fun n => lookup (parseKey k) n (parseStrat st))).toList)
+  | ["A", k, st] => some (phrasesS (allPhrasesOf (fun n => lookup (parseKey k) n (parseStrat st))))
   | ["E"] => some (entriesS (ents ()))
   | _ => none
 
